@@ -12,6 +12,8 @@ from types import MappingProxyType
 from haiway import MISSING, Missing, State, frozenlist
 
 type Pair[Element] = tuple[Element, Element]
+type Pair2[A, B] = tuple[A, B]
+type Swapped[A, B] = Pair2[B, A]        # the same parameter names, handed on in the other order
 
 
 class E(enum.Enum):
@@ -97,6 +99,8 @@ def ann_to_py(a):
         return frozenlist[ann_to_py(xs[0])]       # haiway's own parametrised alias of tuple[Value, ...]
     if k == "pair":
         return Pair[ann_to_py(xs[0])]
+    if k == "swap":
+        return Swapped[ann_to_py(xs[0]), ann_to_py(xs[1])]
     raise ValueError(k)
 
 
